@@ -6,7 +6,7 @@ reachable) + deviation layer: one third-party action (new branch, push to a
 source branch, force-push of a source branch) immediately before each push of
 each job."""
 from ..sysmc import check
-from ..sysmc.drivers import BYPASS_REVIEW
+from ..sysmc.drivers import BYPASS_REVIEW, conflict_init
 from ..sysmc.world import AUTHOR
 
 PROP = 'C08'
@@ -39,6 +39,17 @@ def recreate_spec(depth):
             'max_depth': depth}
 
 
+def conflict_spec(queue, depth):
+    """Conflicts on forward-port and between two pull requests, resolved by
+    hand (integration branch created by the developer, destination merged
+    into the source branch)."""
+    return spec('c08-%s-D3-conflict' % ('q' if queue else 'noq'), 'D3', None,
+                None, queue=queue, depth=depth, resolve=True,
+                init=conflict_init(), statuses_int=[],
+                config={'layout': 'D3', 'queue': queue, 'skip_queue': False,
+                        'options': BYPASS_REVIEW + ['bypass_build_status']})
+
+
 def specs(tier):
     reset = [[AUTHOR, '@robot reset']]
     if tier == 'quick':
@@ -46,8 +57,8 @@ def specs(tier):
                      'development/4.3', queue=False, depth=4, decline=True),
                 spec('c08-q-D2', 'D2', 'development/4.3', 'development/5.1',
                      depth=4, admin=[['delete_queues']]),
-                recreate_spec(6)]
-    return [spec('c08-noq-D2', 'D2', 'development/4.3', 'development/4.3',
+                recreate_spec(6), conflict_spec(False, 5)]
+    return [conflict_spec(False, 8), conflict_spec(True, 8),spec('c08-noq-D2', 'D2', 'development/4.3', 'development/4.3',
                  queue=False, depth=6, decline=True, comments=reset),
             spec('c08-q-D2', 'D2', 'development/4.3', 'development/5.1',
                  depth=6, decline=True, comments=reset,
